@@ -1320,7 +1320,7 @@ KNOWN_CLASS = {"F4": (M_DRAINLEFT, "F4_witness.cases"), "F5": (M_PREPHELD, "F5_w
 # theorems pinned per property (coq/Props/<prop>.v)
 PINS = {
     "C01": ["C01_exactly_once_fifo", "F4_refuted"], "C02": ["C02_order_gating_partial"], "C03": ["C03_once_partial"],
-    "C04": ["C04_owner_count_partial"], "C05": ["C05_ret_once_partial"], "C06": ["C06_quiescence_lazy_idle_partial"],
+    "C04": ["C04_owner_count_partial"], "C05": ["C05_ret_once_partial"], "C06": ["C06_quiescence_lazy_idle", "C06_plain_any_deferrer"],
     "C15": ["C15_time"], "C16": ["C16_heap_partial"], "C20": ["C20_open_close_filter", "C20_filter_table"],
 }
 PROOF_FILES = ["R/Syntax.v", "R/Rt.v", "R/Mon.v"]
@@ -1333,8 +1333,8 @@ CLAIM = {
     "C01": dict(partial=False, proved="C01_exactly_once_fifo: forall d p fuel t, exec d fuel p = Done t -> ~In (EModel M_DRAINLEFT 0) t -> C01_ok t = true; F4_refuted (class inhabited, C01_ok false there)",
                 missing="size/alignment/volume independence of the execution order is the Layer Q theorem (C17); here the queues are abstract lists"),
     "C15": dict(partial=False, proved="C15_time: forall d p fuel t, exec d fuel p = Done t -> C15_ok t = true", missing=""),
-    "C06": dict(partial=True, proved="C06_quiescence_lazy_idle_partial: forall d p fuel t, exec d fuel p = Done t -> C06_plain_ok t = true (main/lazy/idle FIFO lists, quiescence at return, lazy-after-main, idle on request/first/alone, run's boolean)",
-                missing="the conjunct C06_calls_ok (actor calls in the main queue count as pending work unless their target is in Prep) is validated on every real and model trace only"),
+    "C06": dict(partial=False, proved="C06_quiescence_lazy_idle: forall p fuel t, exec DGlobal fuel p = Done t -> C06_ok t = true (both conjuncts: plain closures and actor calls; global / thread-local deferrer); C06_plain_any_deferrer: the plain-closure conjunct for either deferrer kind",
+                missing=""),
     "C02": dict(partial=True, proved="C02_order_gating_partial: gating/holding/flush order of one item; packed state bits = state of the pair",
                 missing="forall-programs statement of C02_ok (per-actor FIFO of calls across Prep->Ready and terminations): validated on traces only"),
     "C03": dict(partial=True, proved="C03_once_partial: termination makes a Zombie and takes the notifier once; Close+Notify pushed together; stop/fail first-writer-wins",
